@@ -16,21 +16,8 @@ open UvModel.Utf8
 /-- `uv__utf8_decode1` returns the value `v` and advances by `n` **iff** the input starts with a
     well-formed sequence (Unicode Table 3-7) whose scalar value is `v` and whose length is `n`. -/
 theorem utf8_accepts_iff_wellformed (l : List Nat) (hl : Bytes l) (v n : Nat) :
-    decode1 l = (some v, n) ↔ spec l = some (v, n) := by
-  rw [decode1_eq_A l hl]
-  match l, hl with
-  | [], _ => simp [spec, decode1A]
-  | [a], hl =>
-    exact ⟨spec_of_A_1 a v n (hl a (by simp)), A_of_spec_1 a v n (hl a (by simp))⟩
-  | [a, b], hl =>
-    exact ⟨spec_of_A_2 a b v n (hl a (by simp)) (hl b (by simp)),
-           A_of_spec_2 a b v n (hl a (by simp)) (hl b (by simp))⟩
-  | [a, b, c], hl =>
-    exact ⟨spec_of_A_3 a b c v n (hl a (by simp)) (hl b (by simp)) (hl c (by simp)),
-           A_of_spec_3 a b c v n (hl a (by simp)) (hl b (by simp)) (hl c (by simp))⟩
-  | a :: b :: c :: d :: r, hl =>
-    exact ⟨spec_of_A_4 a b c d v n r (hl a (by simp)) (hl b (by simp)) (hl c (by simp)) (hl d (by simp)),
-           A_of_spec_4 a b c d v n r (hl a (by simp)) (hl b (by simp)) (hl c (by simp)) (hl d (by simp))⟩
+    decode1 l = (some v, n) ↔ spec l = some (v, n) :=
+  decode1_iff_spec l hl v n
 
 example : spec [0xF0, 0x9F, 0x98, 0x80, 0x41] = some (0x1F600, 4) := by decide
 example : spec [0xEF, 0xBD, 0xA1] = some (0xFF61, 3) := by decide
@@ -122,6 +109,37 @@ theorem toascii_result_codes (s : List Nat) (cap : Nat) :
 example : (toascii [0x61] 1).1 = UV_EINVAL ∧ (toascii [0x61] 2) = (2, { out := [0x61, 0], cap := 2 }) := by
   constructor <;> simp [toascii, scan, decode1, isDot, label, decodeAll, countLoop, writeAscii, Buf.put,
     UV_EINVAL]
+
+/-- `toascii_ascii_identity`: a label made of ASCII bytes only is stored unchanged, byte for byte,
+    through the guarded stores (`putAll`), nothing else is stored, and the label function returns its
+    length.  (`putAll_fits`: when the label fits, the destination is exactly `b.out ++ bytes`.) -/
+theorem toascii_ascii_identity (bytes : List Nat) (b : Buf) (h : ∀ x ∈ bytes, x < 128)
+    (hlen : bytes.length < 4294967296) :
+    label bytes b = ((bytes.length : Int), putAll b bytes) ∧
+    (b.out.length + bytes.length ≤ b.cap → (label bytes b).2.out = b.out ++ bytes) := by
+  have := label_ascii bytes b h hlen
+  exact ⟨this, fun hc => by rw [this]; exact (putAll_fits bytes b hc).1⟩
+
+example : label [0x77, 0x77, 0x77] { cap := 8 } = (3, { out := [0x77, 0x77, 0x77], cap := 8 }) :=
+  (toascii_ascii_identity [0x77, 0x77, 0x77] { cap := 8 } (by intro x hx; simp at hx; omega) (by simp)).1
+
+/-- `toascii_prefix_iff_nonascii` (per label, well-formed UTF-8 with scalar values `vs`):
+    * if some code point is non-ASCII, the first four stores are "xn--" (as far as there is room);
+    * if none is, exactly the label itself is stored — no prefix is added.
+    (A literal "starts with xn-- iff non-ASCII" would be false for the ASCII label "xn--abc", which is
+    copied unchanged.) -/
+theorem toascii_prefix_iff_nonascii (bytes : List Nat) (b : Buf) (hb : Bytes bytes) (vs : List Nat)
+    (hs : specAll bytes = some vs) (hlen : bytes.length < 4294967296) (hvl : vs.length < 4294967296) :
+    ((∃ v ∈ vs, 128 ≤ v) → ((((b.put 120).put 110).put 45).put 45).out <+: (label bytes b).2.out) ∧
+    ((∀ x ∈ bytes, x < 128) → (label bytes b).2 = putAll b bytes) := by
+  refine ⟨fun hn => label_prefix bytes b hb vs hs hn hvl, fun ha => ?_⟩
+  rw [label_ascii bytes b ha hlen]
+
+-- "ü" (C3 BC, correspondence run: "xn--tda"): hypotheses hold, the prefix is stored
+example : [120, 110, 45, 45] <+: (label [0xC3, 0xBC] { cap := 16 }).2.out := by
+  have h := (toascii_prefix_iff_nonascii [0xC3, 0xBC] { cap := 16 } (by intro x hx; simp at hx; omega)
+    [0xFC] (by simp [specAll, spec, isCont, lo2, hi2]) (by simp) (by simp)).1 ⟨0xFC, by simp, by omega⟩
+  simpa [Buf.put] using h
 
 /-- `toascii_rejects_illformed`: a host name that is not well-formed UTF-8 (`specAll = none`:
     some position does not start a Table 3-7 sequence — including a sequence cut short by the end
